@@ -822,28 +822,30 @@ def _r3(ctx):
         NET = ("param", "network")
         idxs = ("comp", "list", None, None)
         g = [(simp(x), pol) for x, pol in c.guards]
-        okg = False
-        if len(g) == 1 and g[0][1] is True and not c.loops:
-            t = g[0][0]
-            b = match(("call", ("global", "all"), (V("c"),), ()), t)
-            if b and b["c"][0] == "comp":
-                mm = as_map(b["c"])
-                if mm:
-                    bv, body, base, ifs = mm
-                    okg = not ifs and base == ("attr", NET, "reactions") and body in (
-                        ("cmp", ("Eq",), (("attr", bv, "idxfromfile"), ("unop", "USub", ("const", 1)))),
-                        ("cmp", ("Eq",), (("attr", bv, "idxfromfile"), ("const", -1))))
-        gsure = False
+        # the guard in canonical form: `not any(P)` is `all(not P)`, `not all(P)` is `any(not P)`, `not (x != k)` is `x == k`
+        okg = gsure = False
         if len(g) == 1 and not c.loops and _plain(g[0][0]):
-            t = g[0][0]
+            t, pol = g[0]
             b = match(("call", ("global", V("q")), (V("c"),), ()), t)
             mm = as_map(b["c"]) if b and b["q"] in ("all", "any") and b["c"][0] == "comp" else None
             if mm:
-                cm = mm[1]
-                while cm[0] == "unop" and cm[1] == "Not":
-                    cm = cm[2]
-                gsure = cm[0] == "cmp" and len(cm[2]) == 2 and any(x == ("attr", mm[0], "idxfromfile") for x in cm[2]) and \
-                    any(x[0] == "const" or (x[0] == "unop" and x[2][0] == "const") for x in cm[2])
+                bv, body, base, ifs = mm
+                quant, neg = b["q"], not pol
+                if neg:
+                    quant = "any" if quant == "all" else "all"
+                while body[0] == "unop" and body[1] == "Not":
+                    body, neg = body[2], not neg
+                if body[0] == "cmp" and len(body[1]) == 1 and body[1][0] in ("Eq", "NotEq") and len(body[2]) == 2:
+                    op = body[1][0]
+                    if neg:
+                        op = "NotEq" if op == "Eq" else "Eq"
+                    lhs, rhs = body[2]
+                    if rhs == ("attr", bv, "idxfromfile"):
+                        lhs, rhs = rhs, lhs
+                    isnum = rhs[0] == "const" or (rhs[0] == "unop" and rhs[2][0] == "const")
+                    if lhs == ("attr", bv, "idxfromfile") and isnum:
+                        gsure = True
+                        okg = quant == "all" and op == "Eq" and not ifs and base == ("attr", NET, "reactions") and rhs in (("unop", "USub", ("const", 1)), ("const", -1))
         _three(ctx, okg, gsure, "R3", "render:reindex-guard", (FILE, c.line), "reindex runs exactly when every reaction of network.reactions is un-indexed (idxfromfile == -1)",
                expected="if all([reac.idxfromfile == -1 for reac in network.reactions])", found="; ".join(show(x)[:120] for x, _ in g))
         _three(ctx, c.value[1] == NET and c.seq < p[4] and not p[1] and not p[2], c.value[1] == NET and not p[1] and not p[2], "R3", "render:reindex-before-prepare", (FILE, c.line),
